@@ -569,6 +569,10 @@ def handle : List String → String
     -- a re-located call (SetRegion after a split or move) names its new region on the wire
     if res = "ok" then s!"OK tags=reloc,{kind},{form}"
     else s!"SPEC key=op-region-{res}-after-relocation kind={kind} form={form}"
+  | ["admin", kind, res] =>
+    -- a table-administration request decoded from its bytes describes the schema the caller gave
+    if res = "ok" then s!"OK tags=admin,{kind}"
+    else s!"SPEC key=admin-{res} kind={kind}"
   | "stress" :: kvs => handleStress kvs
   | "stream" :: codec :: units :: helloTok :: recs => handleStream codec units helloTok recs
   | ["multi", names, calls, perm, obsRA, obsCbs, obsSize] =>
